@@ -51,6 +51,8 @@ type Op struct {
 	K    string      `json:"k"` // W F FB FE D(rop measurement)
 	Rows []tsdrv.Row `json:"rows,omitempty"`
 	M    int         `json:"m,omitempty"` // D: measurement index
+	H    int         `json:"h,omitempty"` // W: this request is held at its log append (slot taken, partition lock held, nothing on disk)
+	// while the next h write ops are started: the WAL's exclusive section at the head of WAL.Write keeps them from taking a slot
 	P    int         `json:"p,omitempty"` // FB: where the flusher is held (0 before the first data-file create, 1 before the first
 	// data-file rename, 2 before the first log removal, 3 before the second log removal)
 }
@@ -93,6 +95,7 @@ type Image struct {
 	NJ       int        `json:"nj"`       // flushes whose log removal is complete
 	Gone     []int      `json:"gone"`     // partitions whose file of epoch NJ has been removed already
 	Tie      bool       `json:"tie"`      // the live-log tie applies
+	Missing  []int      `json:"missing"`  // write ops that hold a WAL slot but whose record is not on disk yet (a held writer)
 	Dump     []Cell     `json:"dump"`     // recovered cells (Got) - all series, all fields, full range
 	Match    string     `json:"match"`    // "acked", "acked+inflight", "partial-drop" or "" (oracle failed)
 	Diff     []Cell     `json:"diff,omitempty"`
@@ -135,6 +138,7 @@ type Flags struct {
 	Drops         int  `json:"drops"`
 	PausedWrites  int  `json:"paused_writes"` // writes acknowledged while a flush was held
 	TornAll       int  `json:"torn_all"`      // images of the every-byte-prefix sweep
+	HeldWriters   int  `json:"held_writers"`  // write requests held at their log append while later ones were started
 }
 
 // ---- generation ----
@@ -236,6 +240,14 @@ func genHistory(r *gen.Rand) (sp spec) {
 			continue
 		}
 		switch k := r.Intn(10); {
+		case k < 7 && r.Chance(1, 7):
+			// a request held at its log append while 1..3 later requests are started (they must wait for it)
+			nb := r.Range(1, 3)
+			first := len(ops)
+			for i := 0; i <= nb; i++ {
+				ops = append(ops, Op{K: "W", Rows: []tsdrv.Row{mkRow()}})
+			}
+			ops[first].H = nb
 		case k < 7:
 			nb := 1
 			if r.Chance(1, 4) {
@@ -363,6 +375,17 @@ func duringFlush(nwal, point int) spec {
 	}
 	ops = append(ops, w1(1, 2, 60), Op{K: "FE"}, w1(0, 3, 61), Op{K: "F"}, w1(0, 1, 62), w1(1, 2, 63))
 	return spec{nser: 2, nwal: nwal, nmst: 1, tornAll: -1, ops: ops}
+}
+
+// fixed history: 3 partitions; a request is held at its log append while two more are started (they must wait), an overwrite of
+// its cell among them; crash image during the hold and after the group; flush; the same again on one cell
+func heldWriterHistory() spec {
+	ops := []Op{w1(0, 1, 81),
+		{K: "W", H: 2, Rows: []tsdrv.Row{{S: 0, T: 4, F: []tsdrv.FV{{F: 0, V: 82}}}}}, w1(0, 2, 83), w1(0, 4, 84),
+		w1(1, 3, 85), {K: "F"},
+		{K: "W", H: 1, Rows: []tsdrv.Row{{S: 0, T: 4, F: []tsdrv.FV{{F: 0, V: 86}}}}}, w1(0, 4, 87),
+		w1(0, 4, 88)}
+	return spec{nser: 2, nwal: 3, nmst: 1, tornAll: -1, ops: ops}
 }
 
 // fixed history: every byte prefix of one log record (the overwrite after a flush), 2 partitions
@@ -568,7 +591,19 @@ func (rn *runner) runHistory(idx int, sp spec, r *gen.Rand) *History {
 		}
 		return -1
 	}
+	heldIdx := -1     // a writer that has taken its slot and is held at its log append
+	var walQueue []int // inside a held-writer group: the write ops whose log appends will come next, in order
+	inGroup := false
+	missingNow := func() []int {
+		if heldIdx >= 0 {
+			return []int{heldIdx}
+		}
+		return []int{}
+	}
 	take := func(at string, inflight, torn int, ev *crashfs.Event, force bool) {
+		if inGroup && !strings.HasPrefix(at, "held writer") {
+			return
+		}
 		if cur < pre || (!force && len(pend) >= capImg) {
 			return
 		}
@@ -588,7 +623,7 @@ func (rn *runner) runHistory(idx int, sp spec, r *gen.Rand) *History {
 		}
 		pend = append(pend, pending{dir: d, tornRel: tr, wal: copyWal(wal), walEpoch: copyEpoch(walEpoch),
 			img: Image{At: at, Op: cur, Acked: acked, Inflight: inflight, Torn: torn, Sub: -1, NRec: nrec, NSw: epoch, NJ: nj,
-				Gone: append([]int{}, gone...), Tie: !sp.auto}})
+				Gone: append([]int{}, gone...), Tie: !sp.auto, Missing: missingNow()}})
 	}
 	// sampling of crash points in the quick tier (every eligible point in thorough)
 	ch := func(num, den int) bool { return !quick || dense || r.Chance(num, den) }
@@ -656,9 +691,16 @@ func (rn *runner) runHistory(idx int, sp spec, r *gen.Rand) *History {
 		switch {
 		case ev.Kind == "write" && isWal(ev.Path):
 			if inWrite {
-				wal[rp] = append(wal[rp], cur)
+				wop := cur
+				if len(walQueue) > 0 {
+					wop, walQueue = walQueue[0], walQueue[1:]
+				}
+				wal[rp] = append(wal[rp], wop)
 				walEpoch[rp] = epoch
 				nrec++
+				if heldIdx == wop {
+					heldIdx = -1 // the held writer's record is on disk now
+				}
 				if ch(1, 4) {
 					take("wal append complete, not yet acknowledged", cur, -1, nil, false)
 				}
@@ -779,6 +821,91 @@ func (rn *runner) runHistory(idx int, sp spec, r *gen.Rand) *History {
 		}
 	}
 
+	// ---- a writer held at its log append while the following write requests are started ----
+	// Model (Model.v cwstate): WAL.Write begins with an exclusive section on the WAL's lock; a request inside writeBinary holds
+	// that lock shared from before it takes its slot until its record is appended. So while a request holds a slot without
+	// a record, no other request can be acknowledged - that is what makes the replay order respect the acknowledgement order
+	// (C01_barrier_replay_respects_ack_order). The harness checks it: the k followers must not complete while A is held.
+	skip := map[int]bool{}
+	heldGroup := func(i, k int) string {
+		for x := 1; x <= k; x++ {
+			if ops[i+x].K != "W" {
+				k = x - 1
+				break
+			}
+		}
+		walDir := filepath.Join(dir, "wal") + sep
+		reached, resume := g.arm(func(kind, path string) bool { return kind == "write" && strings.HasPrefix(filepath.Clean(path), walDir) })
+		type res struct {
+			err any
+		}
+		doneA := make(chan res, 1)
+		run := func(idx int, out chan res) {
+			defer func() {
+				if e := recover(); e != nil {
+					out <- res{e}
+				}
+			}()
+			if err := writeRows(sh, nmst, ops[idx].Rows); err != nil {
+				out <- res{err}
+				return
+			}
+			out <- res{nil}
+		}
+		cur, inWrite, inGroup = i, true, true
+		defer func() { inWrite, inGroup, walQueue = false, false, nil }()
+		walQueue = walQueue[:0]
+		for x := 0; x <= k; x++ {
+			walQueue = append(walQueue, i+x)
+			skip[i+x] = true
+		}
+		go run(i, doneA)
+		select {
+		case <-reached:
+		case r := <-doneA:
+			resume()
+			if r.err != nil {
+				return fmt.Sprintf("write op %d: %v", i, r.err)
+			}
+			return fmt.Sprintf("write op %d never came to a log append", i)
+		}
+		heldIdx = i
+		var completed atomic.Int32
+		doneB := make(chan res, 1)
+		go func() {
+			for x := 1; x <= k; x++ {
+				c := make(chan res, 1)
+				run(i+x, c)
+				if r := <-c; r.err != nil {
+					doneB <- r
+					return
+				}
+				completed.Add(1)
+			}
+			doneB <- res{nil}
+		}()
+		time.Sleep(250 * time.Millisecond)
+		if n := completed.Load(); n > 0 {
+			tieErr(fmt.Sprintf("op %d: %d later write request(s) were acknowledged while the request of op %d held its WAL slot without a record "+
+				"(the exclusive section at the head of WAL.Write must keep them out)", i+1, n, i))
+		}
+		rec.Locked(func() { take("held writer: slot taken, record not on disk, followers waiting", i, -1, nil, true) })
+		resume()
+		if r := <-doneA; r.err != nil {
+			return fmt.Sprintf("write op %d (held at its log append): %v", i, r.err)
+		}
+		if r := <-doneB; r.err != nil {
+			return fmt.Sprintf("write ops after the held op %d: %v", i, r.err)
+		}
+		heldIdx = -1
+		h.Flags.HeldWriters++
+		acked = i + k + 1
+		cur = i + k + 1
+		inGroup = false
+		rec.Locked(func() { take("after acknowledgement of the held-writer group at op "+strconv.Itoa(i), -1, -1, nil, true) })
+		return ""
+	}
+
 	crash := func() (msg string) {
 		defer func() {
 			if e := recover(); e != nil {
@@ -814,6 +941,15 @@ func (rn *runner) runHistory(idx int, sp spec, r *gen.Rand) *History {
 					if t, ok := memMax[rw.S]; !ok || rw.T > t {
 						memMax[rw.S] = rw.T
 					}
+				}
+				if skip[i] {
+					continue // executed as part of a held-writer group
+				}
+				if op.H > 0 && i >= pre && !sp.auto && held == nil {
+					if msg := heldGroup(i, min(op.H, len(ops)-1-i)); msg != "" {
+						return msg
+					}
+					continue
 				}
 				inWrite = true
 				err := writeRows(sh, nmst, op.Rows)
@@ -1336,9 +1472,9 @@ func main() {
 	}
 	only := os.Getenv("VERIF_ONLY")
 	fixed := []spec{witness(), aged8(), newSeriesBeforeFlush(), dropHistory(), tornSweep(), asyncHistory(),
-		duringFlush(1, 0), duringFlush(1, 2), duringFlush(3, 1), duringFlush(3, 3), duringFlush(2, 2)}
+		duringFlush(1, 0), duringFlush(1, 2), duringFlush(3, 1), duringFlush(3, 3), duringFlush(2, 2), heldWriterHistory()}
 	for i, sp := range fixed {
-		if !quick || i < 6 || i-6 == int(gen.FromEnv(77).Intn(5)) || i == 7 { // quick: two of the five held-flush histories
+		if !quick || i < 6 || i-6 == int(gen.FromEnv(77).Intn(5)) || i == 7 || i == 11 { // quick: two of the five held-flush histories
 			if only != "" && only != strconv.Itoa(100000+i) {
 				continue
 			}
